@@ -25,7 +25,7 @@ RULE = ('one case = one history of definition / use operations drawn by a Hypoth
         'defined symbol; distinct = distinct (definition graph shape, source assignment, use-line shape) digests')
 ASSUMPTIONS = [
     'fault-free, history-driven use of the technique (the hidden variable is when each definition is encountered relative to each use)',
-    'excluded: one-character symbol names (the code cannot define them; the property does not promise them), -D a=b=c, symbols inside quoted strings, names starting with a digit',
+    'excluded: one-character symbol names (the code cannot define them; the property does not promise them), -D a=b=c, names starting with a digit',
     'expected values use literals, + and * only, so no dependence on expression-parser properties that are not claimed',
     'a cyclic definition is only required to be rejected when a line uses it (definitions alone are accepted)',
 ]
@@ -160,6 +160,8 @@ class SubstModel:
             m = re.fullmatch(r'"((?:[^"\\]|\\.)*)"', final.strip())
             if not m:
                 return None
+            if not m.group(1).isascii():
+                return None
             try:
                 txt = bytes(m.group(1), 'utf-8').decode('unicode_escape')
             except Exception:
@@ -174,6 +176,23 @@ class SubstModel:
             if '\\' in m.group(1):
                 self.probes['replacement_text_with_backslash'] = self.probes.get('replacement_text_with_backslash', 0) + 1
             self.shape.append(('str', len(vals), directive))
+            return 'keep', [line]
+        if k == 'use_quoted':
+            # a symbol mentioned INSIDE a quoted string on an ordinary line: a whole-word occurrence like any other
+            inner, directive = op['inner'], op['directive']
+            line = f'  {directive} "{inner}"'
+            if '"' in inner or not any(w in self.symbols for w in WORD.findall(inner)):
+                return None
+            try:
+                final = self.expand(inner)
+            except Reject:
+                return 'probe', [line]
+            if '"' in final or '\\' in final or ';' in final or not final or not final.isascii():
+                return None
+            vals = [ord(ch) & 0xFF for ch in final] + ([0] if directive in ('.cstr', '.asciiz') else [])
+            self.out += vals if not self.mute else [0] * len(vals)
+            self.probes['symbol_inside_quoted_string'] = self.probes.get('symbol_inside_quoted_string', 0) + 1
+            self.shape.append(('quoted', len(vals), directive))
             return 'keep', [line]
         if k == 'use':
             text = op['text']
@@ -224,6 +243,7 @@ def isa_for(pre):
 
 def world_for(case, lines):
     argv = ['bespokeasm', 'compile', '-c', 'isa.yaml', 'main.asm']
+    argv += ['-v'] * case.get('verbosity', 0)          # logging level is not supposed to change what is assembled
     for i, (n, v) in enumerate(case['cli_symbols'].items()):
         sp = case.get('cli_spacing', 0)
         eq = ['=', ' = ', ' =', '= '][(sp + i) % 4] if sp else '='
@@ -401,6 +421,7 @@ def make_machine(stats, box):
             self.case['crlf'] = (len(pre) + len(cli)) % 3 == 2
             self.case['cli_via_env'] = len(cli) > 0 and (len(pre) + sum(map(len, cli))) % 4 == 1
             self.case['cli_spacing'] = (len(pre) * 2 + len(cli)) % 3       # blanks around '=' / before the name in -D
+            self.case['verbosity'] = [0, 0, 1, 2, 3][(len(pre) + 3 * len(cli) + sum(map(len, pre))) % 5]
             self.model = SubstModel(dict(pre), dict(cli))
             stats['histories'] += 1
             for i, cn in enumerate(['XABY', 'ABX', 'Q_AB']):
@@ -480,6 +501,13 @@ def make_machine(stats, box):
                 '"' in self.model.symbols.get(w, '') for w in WORD.findall(v)))
             if strs:
                 self.do({'op': 'use_str', 'name': data.draw(st.sampled_from(strs)), 'directive': d})
+
+        @rule(data=st.data(), d=st.sampled_from(['.cstr', '.byte']), pre=st.sampled_from(['', 'v ', 'x=']),
+              post=st.sampled_from(['', '.', ' end']))
+        def use_quoted(self, data, d, pre, post):
+            cands = sorted(k for k, v in self.model.symbols.items() if v and '"' not in v)
+            if cands:
+                self.do({'op': 'use_quoted', 'inner': f'{pre}{data.draw(st.sampled_from(cands))}{post}', 'directive': d})
 
         @rule(data=st.data(), v=st.integers(min_value=1, max_value=30), w=st.integers(min_value=1, max_value=30))
         def idiom_late_definition(self, data, v, w):
